@@ -177,6 +177,18 @@ class CallMixin:
 
   def record_write(self, obj, name):
     self.events.append(('write', obj, name))
+    self.check_monitor(obj, name, f'write of {name}')
+
+  def check_monitor(self, obj, name, what):
+    """guarded-by discipline (set up by a contract: it.monitors = [(owner, fields, guarded lock objects, monitor lock)]):
+    a guarded field / guarded lock of the owner is only changed while the monitor lock is held."""
+    if self.spec_mode:
+      return
+    for owner, fields, locks, mon in self.__dict__.get('monitors', ()):
+      hit = (obj is owner and name in fields) or (name is None and any(obj is l for l in locks))
+      if hit and mon.held == 0:
+        self.oblige(f'{self.cur_name}/lock-discipline[{what} outside {mon.name.split(".")[-1]}]', z3.BoolVal(False), 'lock-discipline',
+                    {'text': f'{what} while {mon.name} is not held (guarded-by discipline of the monitor)'})
 
   def dataclass_default(self, clsname, field):
     mod, cls = self.world.class_by_name(clsname)
@@ -365,6 +377,17 @@ class CallMixin:
       m.stamp = z3.Store(m.stamp, key, m.clock)
       m.clock = m.clock + 1
       return NONE
+    if name == 'update' and m.is_counter and len(a) == 1 and isinstance(a[0], VMap) and a[0].is_counter and a[0].ksort == m.ksort:
+      # collections.Counter.update(other counter): counts are ADDED key by key (a missing key counts 0)
+      o = a[0]
+      kk = z3.Const(self.path.fresh_name('k'), m.ksort)
+      mine = z3.If(z3.Select(m.has, kk), z3.Select(m.val, kk), z3.IntVal(0))
+      val = z3.Lambda([kk], z3.If(z3.Select(o.has, kk), mine + z3.Select(o.val, kk), z3.Select(m.val, kk)))
+      has = z3.Lambda([kk], z3.Or(z3.Select(m.has, kk), z3.Select(o.has, kk)))
+      size = z3.Int(self.path.fresh_name('counter.size'))
+      self.assume(z3.And(size >= m.size, size >= o.size, size <= m.size + o.size))
+      m.has, m.val, m.size = has, val, size
+      return NONE
     if name == 'clear':
       kk = z3.Const(self.path.fresh_name('k'), m.ksort)
       m.has = z3.K(m.ksort, z3.BoolVal(False))
@@ -422,6 +445,19 @@ class CallMixin:
   def lock_acquire(self, lk):
     if lk.held and not lk.reentrant:
       self.events.append(('deadlock', lk.name))
+    # lock hierarchy (declared per property: Registry.lock_ranks, by field name): a lock may only be acquired while the
+    # locks already held by this thread rank strictly lower - the per-call rule that excludes lock-order deadlocks
+    ranks = getattr(self.reg, 'lock_ranks', None)
+    held = self.__dict__.setdefault('held_locks', [])
+    if ranks and not self.spec_mode and not lk.held:
+      r = next((v for k, v in ranks.items() if lk.name.endswith(k)), None)
+      for h in held:
+        rh = next((v for k, v in ranks.items() if h.name.endswith(k)), None)
+        if h is not lk and r is not None and rh is not None and not rh < r:
+          self.oblige(f'{self.cur_name}/lock-order[{h.name.split(".")[-1]}->{lk.name.split(".")[-1]}]', z3.BoolVal(False), 'lock-discipline',
+                      {'text': f'{lk.name} (rank {r}) is acquired while {h.name} (rank {rh}) is held: the lock hierarchy is '
+                               f'{sorted(ranks.items(), key=lambda kv: kv[1])}'})
+    held.append(lk)
     lk.held += 1
     lk.events.append('acquire')
 
@@ -431,11 +467,18 @@ class CallMixin:
     for h in self.release_hooks:     # what other threads may observe from now on must be complete
       h(self, lk)
     lk.held -= 1
+    held = self.__dict__.setdefault('held_locks', [])
+    for i in range(len(held) - 1, -1, -1):
+      if held[i] is lk:
+        del held[i]
+        break
     lk.events.append('release')
     self.seq += 1
     lk.last_release = self.seq
 
   def lock_method(self, lk, name, a, k):
+    if name in ('acquire', 'release'):
+      self.check_monitor(lk, None, f'{name} of {lk.name.split(".")[-1]}')
     gk = f'{lk.name}.free'
     if gk in self.ghost:       # a lock other threads/owners may hold: symbolic ghost state
       free = self.ghost[gk]
